@@ -313,6 +313,11 @@ func TestMain(m *testing.M) {
 
 type infraErr struct{ msg string }
 
+// refusedErr: the loader refused a generated configuration
+type refusedErr struct{ msg string }
+
+func (e refusedErr) Error() string { return "VERIF-INFRA: " + e.msg }
+
 func (e infraErr) Error() string { return "VERIF-INFRA: " + e.msg }
 
 func userEvents(all []engine.ProcEvent, flow, dir string) []event {
@@ -346,7 +351,7 @@ func runCaseAtLevel(r *ev.Recorder, rec *engine.Recorder, c tcase) (nontrivial b
 	}
 	s, e := dir.Load()
 	if e != nil {
-		return false, infraErr{fmt.Sprintf("generated configuration was rejected: %v\n%s", e, c.Flow.YAML())}
+		return false, refusedErr{fmt.Sprintf("generated configuration was rejected: %v\n%s", e, c.Flow.YAML())}
 	}
 	// ---- request ----
 	rec.Take()
@@ -553,11 +558,21 @@ func TestGraphWalk(t *testing.T) {
 	r := ev.New(t, "C04")
 	rec := engine.Capture(0)
 	defer rec.Stop()
+	cases, refused, lastRefusal := 0, 0, ""
 	rapid.Check(t, func(t *rapid.T) {
 		c := genCase().Draw(t, "case")
+		cases++
 		r.Case()
 		nt, err := runCase(r, rec, c)
 		if err != nil {
+			if rf, refusedCase := err.(refusedErr); refusedCase {
+				// the generator builds configurations the loader accepts (it does, on the pinned tree, every time):
+				// a refusal is counted and the search goes on; the unit is inconclusive if refusals are not rare
+				refused++
+				lastRefusal = rf.msg
+				r.Class("generated configuration refused by the loader (case not judged)")
+				return
+			}
 			if _, infra := err.(infraErr); infra {
 				fmt.Println(err.Error())
 				t.Fatalf("%v", err)
@@ -568,6 +583,10 @@ func TestGraphWalk(t *testing.T) {
 			r.NonTrivial(ev.JSON(c), func() any { return c })
 		}
 	})
+	if !t.Failed() && refused*10 > cases {
+		fmt.Printf("VERIF-INFRA: %d of %d generated configurations were refused by the loader, e.g. %s\n", refused, cases, lastRefusal)
+		t.Fatalf("infrastructure")
+	}
 }
 
 // Plain regression / witness checks.
@@ -589,12 +608,12 @@ func TestRegressionAndWitness(t *testing.T) {
 	cases := []tcase{
 		// fixed (8364274): rootless response direction, continuation Gen -> R0 never ran
 		{Flow: fg.Flow{Name: "uflow", URL: "h.com/g", Procs: g("FP0", "GP1", "FR0"),
-			Req: []fg.Conn{{From: fg.StreamStart(), To: fg.End{Proc: "P0"}}, {From: fg.End{Proc: "P0", Cond: "miss"}, To: fg.End{Proc: "P1"}}, {From: fg.End{Proc: "P0", Cond: "hit"}, To: fg.StreamEnd()}},
+			Req:  []fg.Conn{{From: fg.StreamStart(), To: fg.End{Proc: "P0"}}, {From: fg.End{Proc: "P0", Cond: "miss"}, To: fg.End{Proc: "P1"}}, {From: fg.End{Proc: "P0", Cond: "hit"}, To: fg.StreamEnd()}},
 			Resp: []fg.Conn{{From: fg.StreamStart(), To: fg.StreamEnd()}, {From: fg.End{Proc: "R0", Cond: "hit"}, To: fg.StreamEnd()}, {From: fg.End{Proc: "R0", Cond: "miss"}, To: fg.StreamEnd()}, {From: fg.End{Proc: "P1"}, To: fg.End{Proc: "R0"}}}},
 			ReqHdr: map[string]string{}, RespHdr: map[string]string{}, Rootless: true},
 		// known finding C04-F2: TransformAPICall before the answering processor
 		{Flow: fg.Flow{Name: "uflow", URL: "h.com/g", Procs: g("TP0", "GP1", "FR0"),
-			Req: []fg.Conn{{From: fg.StreamStart(), To: fg.End{Proc: "P0"}}, {From: fg.End{Proc: "P0"}, To: fg.End{Proc: "P1"}}},
+			Req:  []fg.Conn{{From: fg.StreamStart(), To: fg.End{Proc: "P0"}}, {From: fg.End{Proc: "P0"}, To: fg.End{Proc: "P1"}}},
 			Resp: []fg.Conn{{From: fg.StreamStart(), To: fg.End{Proc: "R0"}}, {From: fg.End{Proc: "R0", Cond: "hit"}, To: fg.StreamEnd()}, {From: fg.End{Proc: "R0", Cond: "miss"}, To: fg.StreamEnd()}, {From: fg.End{Proc: "P1"}, To: fg.End{Proc: "R0"}}}},
 			ReqHdr: map[string]string{}, RespHdr: map[string]string{}},
 	}
